@@ -155,6 +155,16 @@ def run(ctx):
             cfg["__carrier__"] = "yaml-aliases"
         jobs.append((dict(srcs, **dump_cfg(rng, cfg)), [cmd], "."))
         meta.append(("foreign", (cmd, cfg)))
+    # rules that share one section (performance): the documented per-rule switch of ONE of them is foreign configuration for the command of the OTHER
+    for cmd, sibling in (("string-concat-loop", "regex-in-loop"), ("regex-in-loop", "string-concat-loop")):
+        for spelled in (sibling, sibling.replace("-", "_")):
+            for carrier in ("yaml-aliases", "json"):
+                cfg = json.loads(json.dumps(base_cfg))
+                cfg["performance"] = {spelled: {"enabled": False}}
+                if carrier == "yaml-aliases":
+                    cfg["__carrier__"] = "yaml-aliases"
+                jobs.append((dict(srcs, **dump_cfg(rng, cfg)), [cmd], "."))
+                meta.append(("foreign", (cmd, cfg)))
     # the same relation with the worker pool (enough files for --parallel to really use it): sections are read again in every worker and in the
     # parent's cross-file pass
     fill = {"fill/f%02d.py" % k: "def fill_%d(a):\n    print(a)\n    return a * %d\n" % (k, 10007 + k) for k in range(20)}
